@@ -480,6 +480,92 @@ func checkC16(tier string) int {
 		}
 		nontrivial++
 	}
+	// the same lengths when the reply's nlmsg_len says MORE than arrived (a header that announces the full layout, a
+	// rounded-up length) on a client whose receive buffer still holds an earlier, longer reply: fields the reply did not
+	// reach are zero - not what the header promises, not what was in the buffer before
+	for n := minStatus; n <= 60; n++ {
+		for _, delta := range []int{4, 8, 12, 16, 28, 60 - 16 - n, 1 << 16, -4, -16} {
+			if delta == 0 {
+				continue
+			}
+			raw := make([]byte, n)
+			for i := range raw {
+				raw[i] = byte(0x11 + i)
+			}
+			sim := ksim.New(nil)
+			sim.NoDeviations = true
+			full := make([]byte, 60)
+			for i := range full {
+				full[i] = 0xEE
+			}
+			sim.StatusRaw = full
+			c := &libaudit.AuditClient{Netlink: sim}
+			if _, err := c.GetStatus(); err != nil {
+				rep("getstatus-reply-rejected", "GetStatus rejected a 60-byte reply: %v", err)
+				break
+			}
+			sim.StatusRaw = raw
+			sim.Shape.LenDelta = delta
+			st, err := c.GetStatus()
+			evals++
+			if err != nil || st == nil {
+				if delta < 0 {
+					continue // a header that understates the length: refusing the reply is an answer, too
+				}
+				rep("getstatus-reply-rejected", "GetStatus rejected a %d-byte reply whose nlmsg_len says %d more than arrived: %v", n, delta, err)
+				continue
+			}
+			var want [11]uint32
+			for i := 0; i < 11; i++ {
+				var b4 [4]byte
+				if 4*i < n {
+					copy(b4[:], raw[4*i:])
+				}
+				want[i] = binary.LittleEndian.Uint32(b4[:])
+			}
+			got := [11]uint32{uint32(st.Mask), st.Enabled, st.Failure, st.PID, st.RateLimit, st.BacklogLimit, st.Lost, st.Backlog, st.FeatureBitmap, st.BacklogWaitTime, st.BacklogWaitTimeActual}
+			if got != want && delta > 0 {
+				rep("getstatus-reply-decode-beyond-received", "a %d-byte AUDIT_GET reply whose nlmsg_len says %d more than arrived (after an earlier 60-byte reply of 0xEE bytes on the same client) decoded %x, want %x: only bytes that arrived count", n, delta, got, want)
+				continue
+			}
+			nontrivial++
+		}
+	}
+	// what the kernel reports about the daemon does not decide what a setter sends: GetStatus whose reply names THIS process
+	// (or another, or none) as the audit daemon, then every setter in both modes: exactly one AUDIT_SET each
+	for _, daemon := range []uint32{uint32(syscall.Getpid()), 1, 0, uint32(syscall.Getppid())} {
+		for _, st := range setters() {
+			for _, wm := range []libaudit.WaitMode{libaudit.WaitForReply, libaudit.NoWait} {
+				for _, twice := range []bool{false, true} {
+					sim := ksim.New(nil)
+					sim.NoDeviations = true
+					sim.Status[3] = daemon
+					c := &libaudit.AuditClient{Netlink: sim}
+					if _, err := c.GetStatus(); err != nil {
+						continue
+					}
+					if twice {
+						_, _ = c.GetStatus()
+					}
+					before := len(sim.Sends)
+					identityPid = uint32(syscall.Getpid())
+					err := st.call(c, 1, wm)
+					evals++
+					sets := 0
+					for _, s := range sim.Sends[before:] {
+						if s.Type == uapiAuditSet {
+							sets++
+						}
+					}
+					if err != nil || sets != 1 {
+						rep("setter-request-count-after-getstatus:"+st.name, "GetStatus (the kernel names pid %d as the audit daemon; this process is %d), then %s(mode %d): %d AUDIT_SET requests were sent (error %v), want exactly 1", daemon, syscall.Getpid(), st.name, wm, sets, err)
+						continue
+					}
+					nontrivial++
+				}
+			}
+		}
+	}
 	// every reply length 32..48 x every field the reply holds x every value 0..600 and every single bit,
 	// the other fields at a fixed pattern: the field comes back as sent, whatever its value and the layout
 	for L := 32; L <= 48; L++ {
